@@ -25,6 +25,7 @@ RULE = ('Hypothesis generates data lines (n in 0..12, flags over {0,1,2,3,4,9}, 
         'spaces/tabs/runs); for every line every column count 0..3n+6 is tried by truncating / appending tokens '
         'that are valid both as flags and as numbers. A case is non-trivial when n>=1 (so that flags and '
         '(flux, error) pairs exist and mis-assignment is observable); distinct = distinct canonical JSON.')
+RULE += (' ' + 'Round trip entry: element types of the flux and error sequences vary independently (Python / numpy floats, integers, float32), containers list / tuple / array, coordinates up to +-20000.')
 ASSUMPTIONS = [
     'numeric tokens are plain decimal / exponent literals; nothing is claimed about exotic literals numpy may accept',
     'a token in a flag position that is not an integer literal but is numerically an allowed flag (e.g. 1.000e+00) '
